@@ -17,8 +17,31 @@ def slim(out):
     return [x if x[0] != 'ok' or not isinstance(x[1], list) or len(str(x)) < 400 else ['ok', '...'] for x in out]
 
 
+def pinned_d28(r):
+    """the minimal input of finding D28, run first on every seed"""
+    c = GT.Case()
+    t = GT.Tree()
+    t.add_dir('sub')
+    t.add_dir('sub/deep')
+    t.add_file('sub/deep/f', b'x')
+    t.add_file('sub/Manifest', (ET.entry_line('DATA', 'deep/f', b'x', ['SHA1']) + '\n').encode())
+    t.add_file('Manifest', b'MANIFEST sub/Manifest 3 MD5 00\n')
+    t.hardlinks = True
+    c.tree = t
+    c.meta.update(dirs=['', 'sub', 'sub/deep'], files=['sub/deep/f'], manifests=['Manifest', 'sub/Manifest'], ignored=[], mutations=['pinned:D28'],
+                  order_seed=0, prior='stale')
+    c.opts = (['SHA1'], False, None, None, 'default', None, None, False)
+    c.ops = [['update', 'sub/deep', [], []], ['save', [], 0, [], [], []], ['files'], ['reload'], ['verify', 'sub/deep', 1, []]]
+    c.hash_names = set(GT.GOOD_HASHES)
+    return c
+
+
 def c03(ctx):
-    res = PT.c01_impl(ctx, 3000, 20000, PT.gen_update_case, 'tree:update-save',
+    pins = [pinned_d28]
+
+    def gen(r):
+        return pins.pop(0)(r) if pins else PT.gen_update_case(r)
+    res = PT.c01_impl(ctx, 3000, 20000, gen, 'tree:update-save',
                       'update + save: written Manifests / verification afterwards differ from the reference (C03)')
     cov = ctx.cov['engines']['tree:update-save']
     fresh_ok = fresh_bad = exact_ok = exact_bad = exact_skipped = 0
